@@ -46,6 +46,14 @@ class Rewriter(ast.NodeTransformer):
                 and not node.keywords and not isinstance(node.args[0], ast.Starred)):
             return ast.copy_location(
                 ast.Call(ast.Name("sx_join_", ast.Load()), [f.value, node.args[0]], []), node)
+        # struct format strings built with f-strings: a symbolic count inside the format is semantic (not logging),
+        # so it is made concrete by a complete case split instead of being rendered as a placeholder
+        name = f.id if isinstance(f, ast.Name) else (f.attr if isinstance(f, ast.Attribute) else None)
+        if name in ("pack", "unpack", "unpack_from", "calcsize", "pack_into", "iter_unpack") and node.args \
+                and isinstance(node.args[0], ast.JoinedStr):
+            for v in node.args[0].values:
+                if isinstance(v, ast.FormattedValue):
+                    v.value = ast.copy_location(ast.Call(ast.Name("sx_concrete_", ast.Load()), [v.value], []), v.value)
         return node
 
     # truth tests: `if obj:` on an object whose python-level __len__ returns a symbolic integer would be
